@@ -1,6 +1,7 @@
 package c02
 
 import (
+	"regexp"
 	"sort"
 	"strings"
 
@@ -9,6 +10,8 @@ import (
 
 	"verif/internal/rec"
 )
+
+var digitRuns = regexp.MustCompile(`[0-9]+`)
 
 // obsText is one laid-out TextBox.
 type obsText struct {
@@ -34,27 +37,46 @@ func elemID(n *html.Node) string {
 // collectTexts walks the laid-out pages in page order, then box-tree order.
 func collectTexts(pages []*bo.PageBox) []obsText {
 	var out []obsText
-	seq := 0
-	var walk func(b bo.Box, page int)
-	walk = func(b bo.Box, page int) {
+	seq, frozen := 0, 0
+	// pseudo: the pseudo-element the box belongs to (the TextBox of a ::footnote-marker carries no
+	// pseudo type itself: it is inherited from the enclosing boxes of the same element)
+	var walk func(b bo.Box, page int, parent *html.Node, pseudo string)
+	walk = func(b bo.Box, page int, parent *html.Node, pseudo string) {
+		if bf := b.Box(); bf.Element != parent {
+			pseudo = bf.PseudoType
+		} else if bf.PseudoType != "" {
+			pseudo = bf.PseudoType
+		}
 		if tb, ok := b.(*bo.TextBox); ok {
-			out = append(out, obsText{Page: page, Elem: elemID(tb.Element), Pseudo: tb.PseudoType, Text: tb.TextS(), Seq: seq, X: float64(tb.PositionX), Y: float64(tb.PositionY)})
+			out = append(out, obsText{Page: page, Elem: elemID(tb.Element), Pseudo: pseudo, Text: tb.TextS(), Seq: seq, X: float64(tb.PositionX), Y: float64(tb.PositionY)})
 			return
 		}
 		_, inline := b.(*bo.InlineBox)
-		if !inline {
+		// a float, an absolutely positioned box, a footnote call... inside a line is not part of the
+		// text of the line: the words on both sides of it touch (its own text belongs to another flow,
+		// or, for a floated ::first-letter, to the word that follows)
+		saved, oof := seq, b.Box().Style != nil && !b.Box().IsInNormalFlow()
+		if oof && pseudo == "first-letter" {
+			// the floated first letter and the rest of its word are one word
+			frozen++
+			defer func() { frozen-- }()
+		}
+		if !inline && frozen == 0 {
 			seq++ // entering a line box, a block, an atomic inline...: a line boundary
 		}
 		for _, c := range b.Box().Children {
-			walk(c, page)
+			walk(c, page, b.Box().Element, pseudo)
 		}
-		if !inline {
+		if !inline && frozen == 0 {
 			seq++
+		}
+		if oof {
+			seq = saved
 		}
 	}
 	for i, p := range pages {
 		seq++
-		walk(p, i)
+		walk(p, i, nil, "")
 	}
 	return out
 }
@@ -78,8 +100,14 @@ func groupFlows(texts []obsText, fm *flowMap) (map[string]*flowObs, []obsText) {
 	var strangers []obsText // text that no element of the document accounts for
 	var keys [][2]interface{}
 	for _, t := range texts {
-		if t.Pseudo != "" {
-			continue // generated content (list markers): not document text
+		switch t.Pseudo {
+		case "", "first-letter", "first-line": // text of the element
+		case "before", "after": // generated text of the element: part of its flow
+			if fm.pagesBefore[t.Elem] && t.Pseudo == "before" {
+				t.Text = digitRuns.ReplaceAllString(t.Text, pagesMark)
+			}
+		default:
+			continue // list markers, footnote calls and markers: counters, no document text
 		}
 		key, ok := fm.ofElem[t.Elem]
 		if !ok {
